@@ -3,6 +3,7 @@ package main
 import (
 	"fmt"
 	"go/ast"
+	"go/token"
 	"go/types"
 	"hash/fnv"
 	"sort"
@@ -197,7 +198,7 @@ func stateArg(e pevent) string {
 
 // C12.R1-R4: typestate rules over all notification sequences.
 func c12Traces(c *Ctx) {
-	c.explain("C12.R1-R4 the step goroutine (run() and everything it calls, inlined) is explored path-sensitively: every select case, every unknown branch and both outcomes of every fallible call are forked; each distinct notification sequence must (R1) mention only declared stages and finish no stage before the stages with a declared And-edge into it, (R2) report only declared (stage, output) pairs, (R3) finish no stage twice and never both finish and fail a stage, (R4) contain exactly one completion, reported with state=finished, (R9) report every stage that has a declared And-edge from a finished stage as finished or impossible before the goroutine ends")
+	c.explain("C12.R1-R4 the step goroutine (run() and everything it calls, inlined) is explored path-sensitively: every select case, every unknown branch and both outcomes of every fallible call are forked; each distinct notification sequence must (R1) mention only declared stages and finish no stage before the stages with a declared And-edge into it, (R2) report only declared (stage, output) pairs, (R3) finish no stage twice and never both finish and fail a stage, (R4) contain exactly one completion, reported with state=finished, (R9) report every stage that has a declared And-edge from a finished stage as finished or impossible before the goroutine ends, (R11) report nothing in state `finished` before the completion, (R12) report a stage with an engine-provided input as finished only after that input was received, (R13) report the plugin step as `running` only after the goroutine that executes the plugin was launched")
 	for _, prov := range []string{"plugin", "foreach"} {
 		ts := c.stepTraces(prov)
 		c.Stats["traces_"+prov] = len(ts.traces)
@@ -219,6 +220,76 @@ func c12Traces(c *Ctx) {
 		declared := map[string]bool{}
 		for _, d := range decl {
 			declared[d.stage+"."+d.id] = true
+		}
+		stageInput := c.stageInputChannels(pkg)
+		c.minCount("C12.R12", "stages of the "+prov+" step with an engine-provided input", len(stageInput), 2)
+		// R12 is evaluated on EVERY explored path (paths with the same notification sequence may differ in what they received)
+		r12BySig := map[string][]string{}
+		for _, t := range ts.traces {
+			ns := notifications(t)
+			var bad []string
+			for _, e := range ns {
+				st := ""
+				switch e.Kind {
+				case "change":
+					if e.Args[0] != "nil" {
+						st = e.Args[0]
+					}
+				case "complete":
+					st = e.Args[0]
+				}
+				ch := stageInput[st]
+				if st == "" || ch == "" {
+					continue
+				}
+				got := false
+				for _, x := range t {
+					if (x.Kind == "select" && len(x.Args) > 0 && x.Args[0] == "recv:"+ch) || (x.Kind == "recv" && len(x.Args) > 0 && x.Args[0] == ch) {
+						got = true
+					}
+				}
+				if !got {
+					bad = append(bad, fmt.Sprintf("stage %s is reported finished on a path that never received its input (%s)", st, ch))
+				}
+			}
+			if len(bad) > 0 {
+				sig := traceString(ns)
+				seen := map[string]bool{}
+				for _, x := range r12BySig[sig] {
+					seen[x] = true
+				}
+				for _, x := range bad {
+					if !seen[x] {
+						r12BySig[sig] = append(r12BySig[sig], x)
+						seen[x] = true
+					}
+				}
+			}
+		}
+		// R13 (plugin): the step is reported to have entered `running` — which publishes starting.started — only on paths on
+		// which the goroutine that executes the plugin was launched before
+		r13BySig := map[string]bool{}
+		launcher := ""
+		if prov == "plugin" {
+			for _, fn := range c.inPkgs(c.runFns(), pkgPlugin) {
+				eachInstr(fn, func(r instrRef) {
+					cc := callCommon(r.I)
+					if cc != nil && cc.IsInvoke() && cc.Method.Name() == "Execute" && strings.HasSuffix(cc.Value.Type().String(), "atp.Client") {
+						launcher = c.fnName(fn)
+					}
+				})
+			}
+			for _, t := range ts.traces {
+				launched := false
+				for _, e := range t {
+					if e.Kind == "go" && len(e.Args) > 0 && e.Args[0] == launcher {
+						launched = true
+					}
+					if e.Kind == "change" && len(e.Args) > 2 && e.Args[2] == "running" && !launched {
+						r13BySig[traceString(notifications(t))] = true
+					}
+				}
+			}
 		}
 		seqs := distinctSequences(ts)
 		c.minCount("C12.R1", "distinct notification sequences of the "+prov+" step", len(seqs), 6)
@@ -341,6 +412,32 @@ func c12Traces(c *Ctx) {
 				d = "the completion is reported while the step's state is not `finished`"
 			}
 			c.verdict(d == "", "C12.R4", key, pos, "exactly one completion, state finished", d, path...)
+			// R12: a stage whose input the engine hands over (the mapping stage -> input channel is read from
+			// ProvideStageInput) is only reported finished on paths where that input was received: a step closed while it still
+			// waits for the stage's input must report the stage as impossible, not as done — the DAG node of the stage may
+			// already be (or later become) unresolvable, and resolving it then fails the run or panics.
+			r12 := r12BySig[traceString(si.notifs)]
+			sort.Strings(r12)
+			c.verdict(len(r12) == 0, "C12.R12", key, pos, "stages with an engine-provided input finish only after receiving it", strings.Join(r12, "; "), path...)
+			if prov == "plugin" {
+				c.verdict(launcher != "" && !r13BySig[traceString(si.notifs)], "C12.R13", key, pos, "`running` is entered only after the plugin executor was launched",
+					"the step reports that it entered stage `running` (publishing starting.started) on a path on which the goroutine that executes the plugin ("+launcher+") has not been launched yet: steps waiting for `started` run although the plugin may never start", path...)
+			}
+			// R11: `finished` is the state of a step that has reported its completion. A stage change or stage failure that is
+			// reported BEFORE the completion while the state already reads `finished` lets the fallback detector, which runs
+			// while that notification is processed, count no active step and abort a run whose output is about to be produced.
+			var r11 []string
+			seenComplete := false
+			for _, e := range si.notifs {
+				if e.Kind == "complete" {
+					seenComplete = true
+					continue
+				}
+				if !seenComplete && stateArg(e) == "finished" {
+					r11 = append(r11, fmt.Sprintf("%s(%s) is reported in state `finished` before the completion", e.Kind, strings.Join(e.Args[:1], "")))
+				}
+			}
+			c.verdict(len(r11) == 0, "C12.R11", key, pos, "the state reads `finished` only from the completion on", strings.Join(r11, "; "), path...)
 			// R9: no successor stage is left in limbo. When a stage is reported finished, every stage with a declared
 			// And-edge from it has that dependency resolved; unless the step later reports it finished or impossible, its DAG
 			// node stays pending for ever, and so does everything that waits for it to finish "one way or the other"
@@ -419,4 +516,58 @@ func c05R2Explore(c *Ctx) {
 	c.verdict(nLeak == 0, rule, "deploy-close:plugin.run", c.pos(ts.root.Pos()), fmt.Sprintf("every deployed plugin is closed on all %d explored paths (%d deployments)", len(ts.traces), nDeploy),
 		fmt.Sprintf("%d explored paths end with a deployed plugin that was never closed: the container outlives the run", nLeak), path...)
 	c.minCount(rule, "successful deployments on explored paths", nDeploy, 100)
+}
+
+// stageInputChannels: stage id -> name of the channel field on which ProvideStageInput hands that stage's input to the
+// step goroutine, read from the stage switch of the provider's ProvideStageInput.
+func (c *Ctx) stageInputChannels(pkg string) map[string]string {
+	out := map[string]string{}
+	var psi *ssa.Function
+	for _, f := range c.ifaceMethodImpls(pkgStep, "RunningStep", "ProvideStageInput") {
+		if pkgPathOf(f) == pkg {
+			psi = f
+		}
+	}
+	if psi == nil || len(psi.Params) < 2 {
+		return out
+	}
+	stageParam := psi.Params[1]
+	stageOf := func(at ssa.Instruction) string {
+		id := ""
+		guardedBy(at, true, func(cond ssa.Value) bool {
+			b, ok := cond.(*ssa.BinOp)
+			if !ok || b.Op != token.EQL {
+				return false
+			}
+			if b.X == ssa.Value(stageParam) {
+				if s, ok := constString(b.Y); ok {
+					id = s
+					return true
+				}
+			}
+			return false
+		})
+		return id
+	}
+	for _, s := range c.provideInputSends() {
+		if pkgPathOf(s.fn) != pkg || fieldName(s.ch) == "signalToStep" {
+			continue
+		}
+		if s.fn == psi {
+			if id := stageOf(s.in); id != "" {
+				out[id] = s.ch.Name()
+			}
+			continue
+		}
+		eachInstr(psi, func(r instrRef) {
+			call, ok := r.I.(*ssa.Call)
+			if !ok || call.Common().StaticCallee() != s.fn {
+				return
+			}
+			if id := stageOf(call); id != "" {
+				out[id] = s.ch.Name()
+			}
+		})
+	}
+	return out
 }
